@@ -161,10 +161,28 @@ def _id_text_complete(eng, init, flow, arg, at):
         return True, f"id text = {core}"
     # regular-expression spelling: the group that yields the id must take every digit
     calls_ = [c for c in ast.walk(t) if isinstance(c, ast.Call) and isinstance(c.func, ast.Attribute) and c.func.attr == "group"]
+    m = gi = None
     if calls_:
         g = calls_[0]
         gi = g.args[0].value if g.args and isinstance(g.args[0], ast.Constant) else 0
         m = g.func.value
+    else:
+        # `a, b = m.groups()` (unpacking position i is group i + 1) and `m.groups()[i]`
+        for c in ast.walk(t):
+            if isinstance(c, ast.Call) and isinstance(c.func, ast.Name) and c.func.id == "§unpack" and len(c.args) == 2 and isinstance(c.args[0], ast.Call) \
+                    and isinstance(c.args[0].func, ast.Attribute) and c.args[0].func.attr == "groups" and isinstance(c.args[1], ast.Constant) and isinstance(c.args[1].value, tuple) \
+                    and len(c.args[1].value) == 1:
+                m, gi = c.args[0].func.value, c.args[1].value[0] + 1
+                break
+            if isinstance(c, ast.Subscript) and isinstance(c.value, ast.Call) and isinstance(c.value.func, ast.Attribute) and c.value.func.attr == "groups" \
+                    and isinstance(c.slice, ast.Constant) and isinstance(c.slice.value, int) and c.slice.value >= 0:
+                m, gi = c.value.func.value, c.slice.value + 1
+                break
+    if m is not None:
+        if isinstance(m, ast.Name):  # the match object held in a local
+            ds = flow.reaching(m.id, at)
+            if len(ds) == 1 and ds[0].value is not None:
+                m = ds[0].value
         pat = None
         if isinstance(m, ast.Call) and isinstance(m.func, ast.Attribute) and m.func.attr in ("match", "search", "fullmatch"):
             recv = m.func.value
